@@ -321,7 +321,7 @@ def r6_memoised_results(ctx):
     for gi in ix.all_functions():
         if isinstance(gi.node, ast.Lambda) or not any(nm in gi.module.source for nm in names):
             continue
-        found = [x for x in body_walk(gi.node) if (isinstance(x, ast.Attribute) and x.attr in names and isinstance(x.ctx, ast.Load)) or
+        found = [x for st in gi.node.body for x in ast.walk(st) if (isinstance(x, ast.Attribute) and x.attr in names and isinstance(x.ctx, ast.Load)) or
                  (isinstance(x, ast.Name) and x.id in names and isinstance(x.ctx, ast.Load))]
         if not found:
             continue
@@ -342,12 +342,15 @@ def r6_memoised_results(ctx):
             if not is_prop:
                 up0 = par.get(attr)
                 if not (isinstance(up0, ast.Call) and up0.func is attr):
+                    if isinstance(attr, ast.Attribute) and isinstance(attr.value, ast.Name) and attr.value.id == "self":
+                        uses += 1
+                        escapes.append(f"{gi.module.relpath}:{attr.lineno} {gi.qualname}: the bound method is stored / passed on and called indirectly")
                     continue
                 hit = up0
             uses += 1
             up = par.get(hit)
             where = f"{gi.module.relpath}:{hit.lineno} {gi.qualname}"
-            if isinstance(up, ast.Return) or (isinstance(up, ast.Tuple) and isinstance(par.get(up), ast.Return)):
+            if isinstance(up, ast.Return) or (isinstance(up, ast.Tuple) and isinstance(par.get(up), ast.Return)) or (isinstance(up, ast.Lambda) and up.body is hit):
                 escapes.append(f"{where}: returned")
             elif isinstance(up, ast.Assign) and up.value is hit:
                 tgt = up.targets[0]
